@@ -145,6 +145,73 @@ def backward_summary(first):
     return summ
 
 
+def claim_directory(mach, rv, st):
+    """directory(): T[..=last '/'] when T has a '/', the EMPTY constant when it has none (the empty path: itself)"""
+    out = []
+    for (q, pl) in st[4]:
+        for fut in strscan.completions(mach.spec, q, st[2]):
+            marks = dict(pl)
+            for m, d in fut:
+                if d == 0:
+                    marks.setdefault(m, 0)
+            allm = {m for m, _ in pl} | {m for m, _ in fut}
+            empty_text = isinstance(st[1], int) and st[1] == 0 and st[2] == (0, 0)
+            if 'L' in allm:
+                if rv is None or rv[0] != 'str':
+                    out.append(('value', f'the path has a "/" but the result is {str(rv)[:50]}'))
+                    continue
+                if 'L' not in marks:
+                    out.append(('offset', 'returns before the last "/" is reached'))
+                    continue
+                try:
+                    ok = _num_eq(mach, st, rv[1], strscan.A0) and mach.offset(st, rv[2]) == -marks['L'] - 1
+                except strscan.Unsupported:
+                    ok = False
+                if not ok:
+                    out.append(('offset', 'the result is not the text up to and including the LAST "/"'))
+            else:
+                if empty_text:
+                    ok = (rv is not None and rv[0] == 'str' and _num_eq(mach, st, rv[1], strscan.A0) and _num_eq(mach, st, rv[2], N('len', 0))) or (rv is not None and rv[0] == 'constref' and 'EMPTY' in rv[1])
+                else:
+                    ok = rv is not None and rv[0] == 'constref' and rv[1].rstrip().endswith('EMPTY')
+                if not ok:
+                    out.append(('value', f'the path has no "/" but the result is {str(rv)[:60]} (expected the empty path)'))
+    return out[:3]
+
+
+def run_directory(P):
+    """Engine S, mirror mode, on PathImpl::directory (when it is a hand-written backward scan)"""
+    bodies = {n: b for n, b in P.bodies.items() if n.startswith('common::path::')}
+    fn = PRE + 'directory'
+    r = {'key': 'directory', 'fn': fn, 'what': 'directory() = the text up to and including the last "/" (EMPTY when there is none)', 'findings': [], 'stats': {}}
+    if fn not in bodies:
+        r['findings'].append(('anchor', f'{fn} not found', None, None))
+        return r
+    pts = scanrun.alphabet_points(bodies, prefix=(fn,))
+    try:
+        sp = build_spec('dir-text', ['L', 'N'], True, pts)
+
+        def extra(mach, st, locs, name, args):
+            if name.endswith('::new_unchecked') and args and isinstance(args[0], tuple) and args[0][0] == 'str':
+                return [(args[0], st)]
+            return None
+        m = strscan.Machine(bodies, sp, fn, [BUF], lambda n: False, claim_directory, mirror=True, extra_summary=extra)
+        m.exact_len = True
+        raw = m.run()
+    except Exception as e:
+        r['findings'].append(('error', f'{type(e).__name__}: {e}', None, None))
+        return r
+    seen = set()
+    for kind, msg, st, where in raw:
+        if (kind, msg[:70]) in seen:
+            continue
+        seen.add((kind, msg[:70]))
+        pre, cont = m.witness(st) if st is not None else (b'', b'')
+        r['findings'].append((kind, msg, where, bytes(reversed(pre + cont))[:40]))
+    r['stats'] = dict(m.stats)
+    return r
+
+
 def run(P):
     bodies = {n: b for n, b in P.bodies.items() if n.startswith('common::path::')}
     pts = scanrun.alphabet_points(bodies, prefix=('common::path::PathImpl::segment_at', 'common::path::PathImpl::previous_segment_from', 'common::path::PathImpl::next_segment_from'))
